@@ -223,10 +223,19 @@ impl Authorizer {
         let rule = rule.try_into()?.convert(&mut self.symbols);
 
         let start = Instant::now();
+        let max_time = limits.max_time;
         let result = self.query_inner(rule, limits);
-        self.execution_time = Some(start.elapsed() + execution_time);
+        let elapsed = start.elapsed();
+        self.execution_time = Some(elapsed + execution_time);
 
-        result
+        // the time budget also covers the evaluation of the query itself
+        result.and_then(|res| {
+            if elapsed >= max_time {
+                Err(error::Token::RunLimit(error::RunLimit::Timeout))
+            } else {
+                Ok(res)
+            }
+        })
     }
 
     fn query_inner<T: TryFrom<Fact, Error = E>, E: Into<error::Token>>(
@@ -321,10 +330,19 @@ impl Authorizer {
         let rule = rule.try_into()?.convert(&mut self.symbols);
 
         let start = Instant::now();
+        let max_time = limits.max_time;
         let result = self.query_all_inner(rule, limits);
-        self.execution_time = Some(execution_time + start.elapsed());
+        let elapsed = start.elapsed();
+        self.execution_time = Some(execution_time + elapsed);
 
-        result
+        // the time budget also covers the evaluation of the query itself
+        result.and_then(|res| {
+            if elapsed >= max_time {
+                Err(error::Token::RunLimit(error::RunLimit::Timeout))
+            } else {
+                Ok(res)
+            }
+        })
     }
 
     fn query_all_inner<T: TryFrom<Fact, Error = E>, E: Into<error::Token>>(
